@@ -147,6 +147,7 @@ type shardResult struct {
 	// cpuExceeded: set when the controller ended the worker because one journaled case used up
 	// its processor-time budget
 	cpuExceeded string
+	blocked     string // set by the blocked-worker rule (no progress, no CPU, all threads asleep)
 }
 
 type finding struct {
@@ -346,10 +347,11 @@ func runWorker(bin, id, tier string, seed uint64, j *job, shard, attempt int, sk
 	// compared with the progress of its journal. A case that has consumed the whole budget without
 	// finishing gets a goroutine dump (SIGQUIT) and is classified from that dump.
 	stopCPU := make(chan struct{})
-	if j.cpuBudgetS > 0 {
+	{
 		go func() {
 			var lastSeq int64 = -1
-			var cpu0 float64
+			var cpu0, cpuPrev float64
+			idle := 0
 			t := time.NewTicker(time.Second)
 			defer t.Stop()
 			for {
@@ -361,6 +363,30 @@ func runWorker(bin, id, tier string, seed uint64, j *job, shard, attempt int, sk
 				seq, ok1 := journalSeq(jPath)
 				cpu, ok2 := procCPU(cmd.Process.Pid)
 				if !ok1 || !ok2 {
+					continue
+				}
+				// Blocked worker: the journal does not move, the process uses no processor time at
+				// all and every one of its threads is asleep (not runnable: a starved process on a
+				// loaded machine is runnable), 40 samples in a row. Workers never sleep or wait for
+				// anything outside themselves, so this is a process in which nothing can run any
+				// more; it gets the goroutine dump at once instead of at the watchdog, and the dump
+				// decides (the same rule as for the watchdog).
+				if seq == lastSeq && cpu-cpuPrev < 0.011 && allThreadsAsleep(cmd.Process.Pid) {
+					idle++
+				} else {
+					idle = 0
+				}
+				cpuPrev = cpu
+				if idle >= 40 {
+					r.blocked = fmt.Sprintf("case #%d: no journal progress, no processor time and every thread asleep for %d s", seq, idle)
+					r.timedOut = true
+					cmd.Process.Signal(syscall.SIGQUIT)
+					return
+				}
+				if j.cpuBudgetS <= 0 {
+					if seq != lastSeq {
+						lastSeq = seq
+					}
 					continue
 				}
 				if seq != lastSeq {
@@ -508,6 +534,25 @@ func journalSeq(path string) (int64, bool) {
 	return int64(binary.LittleEndian.Uint64(b[:])), true
 }
 
+// allThreadsAsleep reports whether every thread of the process is in state S (interruptible sleep).
+func allThreadsAsleep(pid int) bool {
+	ents, err := os.ReadDir(fmt.Sprintf("/proc/%d/task", pid))
+	if err != nil || len(ents) == 0 {
+		return false
+	}
+	for _, e := range ents {
+		raw, err := os.ReadFile(fmt.Sprintf("/proc/%d/task/%s/stat", pid, e.Name()))
+		if err != nil {
+			return false
+		}
+		i := bytes.LastIndexByte(raw, ')')
+		if i < 0 || i+2 >= len(raw) || raw[i+2] != 'S' {
+			return false
+		}
+	}
+	return true
+}
+
 // procCPU returns the user+system CPU seconds of a process.
 func procCPU(pid int) (float64, bool) {
 	raw, err := os.ReadFile(fmt.Sprintf("/proc/%d/stat", pid))
@@ -575,10 +620,14 @@ func classifyDeath(r *shardResult) (class string, violation bool, detail string)
 	case strings.Contains(s, "fatal error: runtime: out of memory") || strings.Contains(s, "cannot allocate memory"):
 		return "oom", false, tail
 	case r.timedOut:
-		if dl, why := dumpShowsDeadlock(s); dl {
-			return "deadlock", true, "watchdog fired and the goroutine dump shows every simdjson goroutine blocked: " + why + "\n" + tail
+		what := "watchdog fired"
+		if r.blocked != "" {
+			what = "worker blocked (" + r.blocked + ")"
 		}
-		return "timeout", false, "watchdog fired; goroutine dump does not show a deadlock\n" + tail
+		if dl, why := dumpShowsDeadlock(s); dl {
+			return "deadlock", true, what + " and the goroutine dump shows every simdjson goroutine blocked: " + why + "\n" + tail
+		}
+		return "timeout", false, what + "; goroutine dump does not show a deadlock\n" + tail
 	case strings.Contains(s, "panic:") || strings.Contains(s, "fatal error:"):
 		return "panic", true, headLines(s, 60)
 	case r.exitCode == 3:
